@@ -5,7 +5,7 @@
    stream is checked per input by the observer. *)
 From Coq Require Import List NArith Arith Bool String.
 From WMD Require Import Gen.Tables Lib.Str Lib.PyChars Lib.Escape Lib.Difflib Model.RenderTokens Model.RenderMerge
-     Proofs.DifflibProofs Proofs.MergeProofs Proofs.TokenProofs Proofs.AssembleProofs Proofs.RenderProofs Proofs.ReconcileProofs Proofs.CombinedProofs.
+     Proofs.DifflibProofs Proofs.MergeProofs Proofs.TokenProofs Proofs.AssembleProofs Proofs.RenderProofs Proofs.ReconcileProofs Proofs.CombinedProofs Proofs.NestingProofs.
 Import ListNotations.
 Open Scope N_scope.
 
@@ -41,6 +41,61 @@ Proof.
   intros chunks tt. split; [apply merge_changes_refines|].
   exact (merge_groups_l_refines (Some tt) chunks None).
 Qed.
+
+(* ---- tree level (single-sided views).  The stream is read with a stack of open elements, as a
+   parser reads well-nested markup ([nest]; stack entries are element names or a marker).
+   [nest v [] = Some []] says: every end tag closes the element on top of the stack, every marker
+   is closed by its own end tag, markers never nest, no block-level element is opened - and no
+   block-level tag of any kind is met - while a marker is on the stack, and nothing is left open.
+   In the tree such a parser builds, no marker element has a block-level descendant. *)
+
+(* the marker state machine, from any state, over any slice of a page whose stream is well nested
+   with block-level tags only under block-level elements ([balc]) *)
+Theorem C15_marker_machine_keeps_nesting : forall chunks S S',
+  balc chunks S = Some S' -> nest (merge_changes_l chunks None) (names S) = Some (names S').
+Proof. intros chunks S S' H. exact (merge_changes_nests chunks None S S' I H). Qed.
+
+(* whole single-sided views, for any two token lists and EVERY contiguous opcode list *)
+Theorem C15_tree_level_single_sided : forall (new_side : bool) (old new : list token) (ops : list opcode),
+  Forall hidden_blank old -> Forall hidden_blank new ->
+  chain ops 0 0 (List.length old) (List.length new) ->
+  balc (expand_tokens false (if new_side then new else old)) [] = Some [] ->
+  nest (view_l new_side old new ops) [] = Some [].
+Proof. exact single_sided_nests. Qed.
+
+(* every admissible element tree ([page_ok]: tags read back to one name, opaque and void elements
+   need no closing, no block-level element inside an inline one) has such a stream ... *)
+Theorem C15_admissible_pages_are_well_nested : forall root,
+  page_ok root = true -> balc (nb (map chunk_str (flatten_root root))) [] = Some [].
+Proof. exact page_ok_balanced. Qed.
+
+(* ... hence, for all pairs of element trees, all rule sets and all spacer caps: *)
+Theorem C15_tree_level_pages : forall (old_root new_root : el) rules cap (new_side : bool),
+  page_ok (if new_side then new_root else old_root) = true ->
+  nest (view_l new_side (prepare old_root cap) (prepare new_root cap)
+               (token_opcodes rules (prepare old_root cap) (prepare new_root cap))) [] = Some [].
+Proof. exact admissible_pages_nest. Qed.
+
+(* the hypothesis is met by ordinary pages (paragraph with inline formatting, a list with a link,
+   a line break, an iframe, a script) ... *)
+Definition C15_sample_page : el :=
+  let leaf (tag text tail : string) := El (s2l tag) [] (s2l text) [] (s2l tail) [] in
+  El (s2l "div"%string) [] [] [
+    El (s2l "p"%string) [(s2l "class", s2l "lead")] (s2l "one "%string) [leaf "b"%string "two"%string " three"%string; leaf "br"%string ""%string "four"%string] [] [];
+    El (s2l "ul"%string) [] [] [El (s2l "li"%string) [] [] [El (s2l "a"%string) [(s2l "href", s2l "/x")] (s2l "link"%string) [] [] []] [] []] [] [];
+    leaf "iframe"%string ""%string " after"%string;
+    El (s2l "script"%string) [] [] [] [] (s2l "<script>if (a<b) x()</script>"%string)] [] [].
+
+Example C15_sample_page_admissible : page_ok C15_sample_page = true.
+Proof. vm_compute. reflexivity. Qed.
+
+(* ... and it cannot be dropped: with a block-level element inside an inline one the marker is
+   closed in front of the block, the inline element is closed with it, and its own end tag later
+   closes nothing - the view is not well nested (the parser then repairs it in its own way) *)
+Example C15_nesting_needs_admissible_pages :
+  let chunks := map s2l ["<b>"; "x"; "<p>"; "y"; "</p>"; "z"; "</b>"]%string in
+  balc chunks [] = None /\ nest (merge_changes_l chunks None) [] = None /\ scan false (merge_changes_l chunks None) = Some false.
+Proof. vm_compute. repeat split. Qed.
 
 (* the block table regenerated from the source contains the specification's block-level elements *)
 Definition spec_blocks : list str :=
